@@ -16,6 +16,7 @@ import (
 	"github.com/ethereum/go-ethereum/common"
 	"github.com/ethereum/go-ethereum/core/types/goattypes"
 	ethcrypto "github.com/ethereum/go-ethereum/crypto"
+	goatxtypes "github.com/goatnetwork/goat/x/goat/types"
 	lockingtypes "github.com/goatnetwork/goat/x/locking/types"
 	relayertypes "github.com/goatnetwork/goat/x/relayer/types"
 
@@ -700,4 +701,14 @@ func failClass(log string) string {
 		out = out[:70]
 	}
 	return string(out)
+}
+
+// lastPayload returns the payload of the last committed block message (a well-formed payload to build hostile messages from).
+func (h *lockHist) lastPayload() *goatxtypes.ExecutionPayload {
+	for i := len(h.ch.Blocks) - 1; i >= 0; i-- {
+		if p := h.ch.Blocks[i].Payload; p != nil {
+			return p
+		}
+	}
+	return nil
 }
